@@ -112,6 +112,14 @@ def main():
                 else:
                     chk.held(h([name, threads, len(chk.distinct)]))
                     chk.count(f"identical_to_single_thread@{threads}")
+        if not quick or os.environ.get("C17_TSAN") == "1":
+            # sanitizer lane: the same `Project::check` runs under ThreadSanitizer (everything
+            # rebuilt instrumented, std included) with 8 workers; the audit is switched off so that
+            # only the repository's own parallel section is observed
+            import lanes
+
+            tj = [{"id": i, "op": "check", "root": path, "audit": False, "seed": 99 + chk.seed, "max_success": 20, "tracing": "verbose-all"} for i, (name, path) in enumerate(projects)]
+            lanes.tsan(chk, "C17", tj if not quick else tj[:6], threads=8)
     finally:
         projgen.cleanup()
     chk.assumptions = [
